@@ -105,7 +105,7 @@ def pilots_matrix(row, r):
     a = np.array(m, dtype=(np.int64, np.int32)[r.randrange(2)] if as_int else np.float64).reshape((n, ncols))
     if r.randrange(3) == 0:
         a = np.asfortranarray(a)
-    idx = (i, np.int64(i), i - ncols)[r.randrange(3)]        # a negative index addresses the same column from the end
+    idx = (i, np.int64(i))[r.randrange(2)]
     return a, idx
 
 
@@ -135,8 +135,7 @@ class _World:
         sta0 = case["ops"][0]["sta"]
         self.ev = {}
         for e, d in enumerate(case["evs"], 1):
-            bat = Battery(var.num(d["cap"] / KWH) if float(d["cap"] / KWH).is_integer() else d["cap"] / KWH,
-                          d["init"] / KWH, d["pw"] / 1000.0)
+            bat = Battery(d["cap"] / KWH, d["init"] / KWH, var.num(d["pw"] / 1000.0))
             self.ev[e] = EV(var.rng.randrange(0, 3), 10 + var.rng.randrange(0, 5), d["req"] / KWH, var.station[sta0[e - 1]],
                             var.session[e], bat)
         self.ev_index = {id(v): k for k, v in self.ev.items()}
@@ -236,15 +235,21 @@ class _World:
             p = self.evse[s].current_pilot
             if not close(p, step["pilot"][s - 1] / U):
                 return _mm("C13", "current_pilot", n, step, {"station": s, "pilot": step["pilot"][s - 1] / U}, {"station": s, "pilot": float(p)})
-        # ledger per EV
+        # ledger per EV.  After an update_pilots call that raised, the EVs of the refusing station and of the stations
+        # behind it must be untouched: that is C13's clause ("a rejected pilot ... leaves the connected EV's energy and
+        # battery untouched"); everything else about energies and rates is the ledger (C02).
+        unreached = set()
+        if step["op"] == "update" and step["res"] == "invalid":
+            unreached = {step["occ"][s - 1] for i, s in enumerate(reg) if i >= step["applied"]} - {0}
         for e, ev in self.ev.items():
+            led = "C13" if e in unreached else "C02"
             if not close_energy(ev.energy_delivered, step["evE"][e - 1]):
-                return _mm("C02", "energy_delivered", n, step, {"ev": e, "kWh": step["evE"][e - 1] / EU}, {"ev": e, "kWh": float(ev.energy_delivered)})
+                return _mm(led, "energy_delivered", n, step, {"ev": e, "kWh": step["evE"][e - 1] / EU}, {"ev": e, "kWh": float(ev.energy_delivered)})
             if not close_energy(ev._battery._current_charge, step["chg"][e - 1]):
-                return _mm("C02", "battery_charge", n, step, {"ev": e, "kWh": step["chg"][e - 1] / EU}, {"ev": e, "kWh": float(ev._battery._current_charge)})
+                return _mm(led, "battery_charge", n, step, {"ev": e, "kWh": step["chg"][e - 1] / EU}, {"ev": e, "kWh": float(ev._battery._current_charge)})
             num, den = step["rate"][e - 1]
             if not close(ev.current_charging_rate * U, num / den):
-                return _mm("C02", "ev.current_charging_rate", n, step, {"ev": e, "A": num / den / U}, {"ev": e, "A": float(ev.current_charging_rate)})
+                return _mm(led, "ev.current_charging_rate", n, step, {"ev": e, "A": num / den / U}, {"ev": e, "A": float(ev.current_charging_rate)})
         rates = net.current_charging_rates
         want = [a / b / U for a, b in step["rates"]]
         if not isinstance(rates, np.ndarray) or rates.shape != (len(reg),) or not all(close(x * U, w * U) for x, w in zip(rates, want)):
@@ -296,8 +301,10 @@ def replay_case(case):
             else:
                 res, warned, ret = w.perform(step)
             phase = "views"
-            if res != step["res"]:
-                return _mm(_outcome_owner(res, step["res"]), "outcome", n, step, step["res"], res)
+            # "vacant" / "mismatch" (an unplug that finds nobody / somebody else) are not exceptions: a warning and no change
+            want = step["res"] if step["res"] in ("keyerror", "occupied", "invalid") else "ok"
+            if res != want:
+                return _mm(_outcome_owner(res, want), "outcome", n, step, step["res"], res)
             if bool(warned) != bool(step["warn"]):
                 return _mm("C01", "warning", n, step, bool(step["warn"]), bool(warned))
             if step["op"] == "get_ev" and res == "ok":
@@ -363,16 +370,22 @@ def check_network(rep, tier, seed, owner):
         "only when the remaining demand is >= 1 W*min away from the 1e-3 kWh threshold (others counted as non-decisive)",
         "Network: update_pilots is given an ndarray with a row per registered station and a valid column index",
     ]
+    acts = ["Register", "Plugin", "Plugin2", "Unplug", "UnplugDep", "GetEv", "DoUpdate", "PostUpdate", "Retarget", "Finish"]
     mc = run_tlc("MC_Network", "Network_mc", workers=4, coverage=True, timeout=1500,
-                 overrides={"MaxOps": "= 3", "InitSta": "<- StaFew"} if quick else {"MaxOps": "= 5"})
+                 overrides={"MaxOps": "= 3", "InitSta": "<- StaFew"} if quick else {"MaxOps": "= 6"})
     rep.add_tlc(mc, "Network: exhaustive model checking of every call sequence (2 stations of different kinds, 2 EVs): " + MC_PROPS,
-                "Network_mc" + (" MaxOps=3 InitSta=StaFew" if quick else " MaxOps=5"),
-                require_actions=["Register", "Plugin", "Plugin2", "Unplug", "UnplugDep", "GetEv", "DoUpdate", "PostUpdate",
-                                 "Retarget", "Finish"])
+                "Network_mc" + (" MaxOps=3 InitSta=StaFew" if quick else " MaxOps=6"), require_actions=acts)
     require_ok(mc, "Network model checking")
-    rep.bounds["Network_mc"] = {"stations": 2, "evs": 2, "calls": 3 if quick else 5, "menu": 4}
+    rep.bounds["Network_mc"] = {"stations": 2, "evs": 2, "calls": 3 if quick else 6, "menu": 4}
+    if not quick:
+        # (no -coverage here: the same actions as above, whose coverage has just been required; it would double the cost)
+        mc3 = run_tlc("MC_Network", "Network_mc", workers=4, timeout=1500, overrides={"MaxOps": "= 4", "EVs": "<- EVsThree"})
+        rep.add_tlc(mc3, "Network: exhaustive model checking, 2 stations, 3 EVs (same invariants and action properties)",
+                    "Network_mc MaxOps=4 EVs=EVsThree")
+        require_ok(mc3, "Network model checking (3 EVs)")
+        rep.bounds["Network_mc3"] = {"stations": 2, "evs": 3, "calls": 4, "menu": 4}
 
-    n_sim = 1200 if quick else 15000
+    n_sim = 1000 if quick else 20000
     jobs = [("exhaustive", dict(cfg="Network_gen", overrides={"InitRegs": "<- RegsFew", "InitSta": "<- StaFew"} if quick else {}))]
     if not quick:
         jobs.append(("exhaustive3", dict(cfg="Network_gen", overrides={"InitRegs": "<- RegsOne", "InitSta": "<- StaOne", "MaxOps": "= 3"})))
@@ -383,10 +396,11 @@ def check_network(rep, tier, seed, owner):
 
     def gen(job):
         name, kw = job
+        kw = dict(kw)
         return name, run_tlc("MC_Network", kw.pop("cfg"), workers=1, timeout=1500, **kw)
 
     with ThreadPoolExecutor(max_workers=4) as ex:
-        results = list(ex.map(gen, [(n, dict(k, cfg=k["cfg"])) for n, k in jobs]))
+        results = list(ex.map(gen, jobs))
     cases, seen, n_ex = [], set(), 0
     for (name, res), (_, kw) in zip(results, jobs):
         require_ok(res, "Network generation %s" % name)
